@@ -12,7 +12,7 @@ import (
 )
 
 func init() {
-	register(&Rule{ID: "C15", Run: runC15, Controls: controlsC15,
+	register(&Rule{ID: "C15", Run: runC15, Controls: controlsC15, ThoroughWhole: true,
 		Explanation: "Structural necessary conditions of 'a target's hash depends only on its final labels and URL, and is stable', decided on pkg/discovery: " +
 			"R15.1 determinism: every function the hash function (the one whose result is stored into Target.Hash) calls, transitively through kvass code, belongs to an allow-list of deterministic packages; per-process or time-dependent sources (hash/maphash, math/rand, crypto/rand, time, os, runtime, reflect pointers, unsafe) are denied; the label slice is sorted before it is hashed (the thorough tier extends the closure through the whole program's call graph); " +
 			"R15.2 inputs: both parameters flow into the digest; at the call site the arguments are exactly the final labels (the very value given to scrape.NewTarget as the target's labels and shipped as ShardTarget.Labels' source) and the String() of that target's URL; the label slice handed to label population comes from labels.New (sorted, de-duplicated by the library); " +
@@ -73,6 +73,44 @@ func runC15(p *engine.Prog, r *engine.Report) {
 		var probs []string
 		seen := map[*ssa.Function]bool{}
 		callees := map[string]bool{}
+		thirdParty := map[string]bool{}
+		libSeen := map[*ssa.Function]bool{}
+		var libProbs []string
+		var walkLib func(f *ssa.Function, depth int)
+		walkLib = func(f *ssa.Function, depth int) {
+			if libSeen[f] || depth > 8 {
+				return
+			}
+			libSeen[f] = true
+			for _, in := range allInstrs(f) {
+				ci, ok := in.(ssa.CallInstruction)
+				if !ok {
+					continue
+				}
+				o := engine.CalleeObj(ci.Common())
+				if o == nil || o.Pkg() == nil {
+					continue
+				}
+				pk := o.Pkg().Path()
+				bad := false
+				switch pk {
+				case "hash/maphash", "math/rand", "crypto/rand":
+					bad = true
+				case "time":
+					bad = o.Name() == "Now" || o.Name() == "Since"
+				case "os":
+					bad = o.Name() == "Getpid" || o.Name() == "Hostname" || o.Name() == "Getenv" || o.Name() == "Environ"
+				}
+				if bad {
+					libProbs = append(libProbs, "library function "+f.String()+" reached from the hash computation calls "+o.FullName())
+				}
+				if strings.Contains(strings.Split(pk, "/")[0], ".") {
+					if sc := ci.Common().StaticCallee(); sc != nil && sc.Blocks != nil {
+						walkLib(sc, depth+1)
+					}
+				}
+			}
+		}
 		var walk func(f *ssa.Function)
 		walk = func(f *ssa.Function) {
 			if seen[f] {
@@ -110,6 +148,13 @@ func runC15(p *engine.Prog, r *engine.Report) {
 						denied = true
 					}
 				}
+				// whole-program tier: third-party callees (non standard library) are traversed too
+				if !denied && p.Whole && strings.Contains(strings.Split(pk, "/")[0], ".") {
+					if sc := c.StaticCallee(); sc != nil && sc.Blocks != nil {
+						thirdParty[o.FullName()] = true
+						walkLib(sc, 0)
+					}
+				}
 				if denied {
 					probs = append(probs, "the hash computation calls "+o.FullName()+" ("+p.Rel(ci.Pos())+"): its result differs between processes or runs")
 					continue
@@ -134,6 +179,8 @@ func runC15(p *engine.Prog, r *engine.Report) {
 			}
 		}
 		walk(hf)
+		r.Analysed["hash_third_party_functions_traversed"] = len(libSeen)
+		probs = append(probs, libProbs...)
 		// sort before hashing the label slice
 		var sortCall, lhash ssa.Instruction
 		for _, in := range allInstrs(hf) {
